@@ -183,14 +183,14 @@ func runC19(c *Ctx) {
 		core.EachInstr(fd, func(in ssa.Instruction) {
 			if mu, ok := in.(*ssa.MapUpdate); ok {
 				if k, _ := core.ConstString(mu.Key); k == "data" {
-					if !derivesFromParam(mu.Value, fd.Params[len(fd.Params)-1], 0) {
+					if !isParamIdentity(mu.Value, fd.Params[len(fd.Params)-1], 0) {
 						okData = false
 					}
 				}
 			}
 		})
 		R.Check(okData, "C19.envelope", "http|FilterData|data-is-value", P.Pos(fd.Pos()),
-			"data member is the value passed in", "the data member is not derived from the value passed to the handler", nil)
+			"data member is the value passed in (unmodified)", "the data member is not the value passed to the handler itself (it is transformed or replaced before marshalling)", nil)
 	}
 	jh := P.Func("http", "jsonHandler")
 	if R.Anchor(jh != nil && len(jh.AnonFuncs) == 1, "C19.envelope", "http.jsonHandler$1") {
@@ -527,6 +527,35 @@ func derivesFromParam(v ssa.Value, p *ssa.Parameter, d int) bool {
 		return derivesFromParam(x.X, p, d+1)
 	case *ssa.MakeInterface:
 		return derivesFromParam(x.X, p, d+1)
+	}
+	return false
+}
+
+// isParamIdentity: v is the parameter itself, possibly through interface conversions and type assertions.
+func isParamIdentity(v ssa.Value, p *ssa.Parameter, d int) bool {
+	if d > 8 {
+		return false
+	}
+	switch x := v.(type) {
+	case *ssa.Parameter:
+		return x == p
+	case *ssa.MakeInterface:
+		return isParamIdentity(x.X, p, d+1)
+	case *ssa.ChangeInterface:
+		return isParamIdentity(x.X, p, d+1)
+	case *ssa.ChangeType:
+		return isParamIdentity(x.X, p, d+1)
+	case *ssa.Extract:
+		return isParamIdentity(x.Tuple, p, d+1)
+	case *ssa.TypeAssert:
+		return isParamIdentity(x.X, p, d+1)
+	case *ssa.Phi:
+		for _, e := range x.Edges {
+			if !isParamIdentity(e, p, d+1) {
+				return false
+			}
+		}
+		return len(x.Edges) > 0
 	}
 	return false
 }
